@@ -31,6 +31,7 @@ from static_frame.core.util import column_2d_filter
 from static_frame.core.util import DTYPE_BOOL
 from static_frame.core.util import DTYPE_FLOAT_DEFAULT
 from static_frame.core.util import DTYPE_INEXACT_KINDS
+from static_frame.core.util import DTYPE_INT_KINDS
 from static_frame.core.util import DTYPE_OBJECT
 from static_frame.core.util import dtype_to_fill_value
 from static_frame.core.util import DtypeSpecifier
@@ -893,6 +894,9 @@ class TypeBlocks(ContainerOperand):
                 astype_pre = dtype.kind in DTYPE_INEXACT_KINDS
             else:
                 dtype = self._row_dtype
+                if (dtype == DTYPE_BOOL or dtype.kind in DTYPE_INT_KINDS) and ufunc in (np.sum, np.prod):
+                    # NumPy sums and multiplies Booleans and narrow integers in the default integer: allocate what the unified form returns
+                    dtype = ufunc(np.empty(0, dtype=dtype)).dtype
                 astype_pre = True # if no dtypes given (like bool) we can coerce
 
             # If dtypes were specified, we know we have specific targets in mind for output
